@@ -63,6 +63,7 @@ func runC09(c *Ctx) {
 	// clause shared with C03: a reported error is the outcome the client sees (see DESIGN.md section 6a)
 	defer c.ImportRules("C03", "C03.14")
 	defer c.ImportRules("C04", "C04.8")
+	defer c.ImportRules("C01", "C01.9")
 	reach := p.RequestTimeReach()
 	rwReport := p.MustFunc("(*responseWriter).reportError")
 	rwReportEnd := p.MustFunc("(*responseWriter).reportEnd")
@@ -929,7 +930,9 @@ func runC09NoFinaliseOnPanic(c *Ctx) {
 						"the response writer's close is deferred directly: it also runs while a handler's panic unwinds, and turns a response that was aborted in the middle of a message into a complete, successful one")
 					continue
 				}
-				if cal.Parent() != fn {
+				// a closure of this function, or a named module function that is deferred itself
+				// (recover() works in a function that is called directly by the defer)
+				if cal.Parent() != fn && !(p.inModule(cal) && cal.Parent() == nil) {
 					continue
 				}
 				for _, call := range Calls(cal) {
